@@ -1,3 +1,35 @@
 import PeptVerif.Model.ParserProto
-/-! driver for C09: same step function as C01 (the parser model is shared) -/
-def main : IO Unit := Proto.runDriver Pept.Drv.step
+import PeptVerif.Model.C09Dispatch
+/-! driver for C09: same step function as C01 (the parser model is shared), plus the resolver-dispatch op of the
+deferred-validation extension:
+
+* `reached <precursor 0|1> <A-dump> <static dict>` → the modifications `mass` (fast path) hands to `mod_mass`, in call order
+  (`Dispatch.reachedStatic` of the dict, then `Dispatch.reachedPlaced`), `;`-separated wire mods.
+  static dict := `-` (no static rules) | entry (`;` entry)*, entry := `<escaped target>=<mod>&<mod>…` — what
+  `parse_static_mods` returned, in insertion order. -/
+open Proto Pept Pept.Wire
+namespace Pept.Drv9
+
+def readStaticEntry? (s : String) : Option (List Char × List Mod) :=
+  match s.splitOn "=" with
+  | [k, ms] => do
+    let k ← unesc k
+    let ms ← parseModsWith? "&" ms
+    pure (k, ms)
+  | _ => none
+
+def readStatic? (s : String) : Option (List (List Char × List Mod)) :=
+  if s == "-" then some [] else (s.splitOn ";").mapM readStaticEntry?
+
+def step (line : String) : String :=
+  match splitTab line with
+  | ["reached", p, dump, st] =>
+    match parseBool? p, parseAnnotation? dump, readStatic? st with
+    | some p, some a, some map =>
+      "R" ++ showModsWith ";" (Dispatch.reachedStatic map ++ Dispatch.reachedPlaced p a)
+    | _, _, _ => "bad-args"
+  | _ => Pept.Drv.step line
+
+end Pept.Drv9
+
+def main : IO Unit := Proto.runDriver Pept.Drv9.step
